@@ -315,7 +315,7 @@ pub fn configs(thorough: bool) -> Vec<Cfg> {
     v.push(Cfg::Isolation { thresholds: vec![3, 2, 4] });
     v.push(Cfg::Isolation { thresholds: vec![4, 4, 1] });
     // 2 = exactly the length of the argument list (first index outside it), -3 / 5 further outside
-    let idx: &[isize] = if thorough { &[0, 1, -1, -2, -3, 2, 5] } else { &[0, -1, -3, 2] };
+    let idx: &[isize] = if thorough { &[0, 1, -1, -2, -3, 2, 5] } else { &[0, -1, -2, -3, 2] };
     for &index in idx {
         for threshold in [1u64, 2] {
             for overrides in [vec![], vec![("x".to_string(), 1u64)], vec![("x".to_string(), 3u64), ("y".to_string(), 1u64)]] {
